@@ -520,9 +520,18 @@ class BackgroundTask(threading.Thread):
         """Set a task cancellation flag."""
         self.running = False
 
+    def start(self):
+        """Start the thread; the task counts as running from here on.
+
+        The flag is set by the starting thread, before the worker thread
+        exists, so that a cancel() issued right after start() cannot be
+        overwritten by the worker.
+        """
+        self.running = True
+        super(BackgroundTask, self).start()
+
     def run(self):
         """Start running the repeated background task in the loop."""
-        self.running = True
         while self.running:
             time.sleep(self.interval)
             if not self.running:
